@@ -669,7 +669,7 @@ func kinds() []kindEntry {
 }
 
 func runEpisodes(r *vlib.Run, o *vlib.Oracle) {
-	ks := kinds()
+	ks := append(kinds(), moreKinds()...) // multi.go
 	totalW := 0
 	for _, k := range ks {
 		totalW += k.weight
@@ -707,6 +707,7 @@ func runEpisodes(r *vlib.Run, o *vlib.Oracle) {
 					run(ks[0])
 				}
 			}
+			e.badInputSweep(ep) // multi.go: k = 2..8 inputs × bad signature / key / script at every kind of position
 			if len(terminals) > 0 {
 				run(terminals[ep%len(terminals)])
 			}
